@@ -395,8 +395,10 @@ pub fn gen_world(base: u64, run: u64, profile: Profile) -> World {
         };
         let mut clone_src: Vec<(u32, u32)> = Vec::new();
         while (ops.len() as u64) < nops {
-            let r = wl.below(100);
             let iter_bias = if profile == Profile::C09 { 78 } else { 55 };
+            // the iterator family gets `iter_bias` percent; the rest is split with fixed weights
+            // find 12, replace 8, nested 5, clone 6, rewrite 5, compile 6 (of 42)
+            let r = if wl.chance(iter_bias, 100) { 0 } else { iter_bias + wl.below(42) };
             let mut op = if r < iter_bias {
                 // iterator family
                 if open.is_empty() || (open.len() < 3 && wl.chance(1, 4)) {
